@@ -68,6 +68,10 @@ def split_tokens(rng, parts, mode):
                 cur += s
     if cur:
         toks.append(("mn", cur))
+    # the leading digit group written as text (what some converters emit): it starts a number like an mn does
+    # (only in front of a decimal mark: a comma list needs an mn on both sides of every comma)
+    if len(toks) > 2 and toks[0][0] == "mn" and not any(k == "s" or s_ == "," for k, s_ in parts) and rng.random() < 0.3:
+        toks[0] = ("mtext", toks[0][1])
     return toks
 
 
@@ -89,6 +93,11 @@ CONTEXTS = [
     ("ws-after-3", "<mi>x</mi><mo>=</mo>{N}<mo>&#xA0;</mo><mspace width='1em'/><mtext>&#x2009;</mtext>"),
     ("ws-before-2", "<mi>x</mi><mo>=</mo><mspace width='0.3em'/><mtext>&#x2009;</mtext>{N}<mo>+</mo><mn>1</mn>"),
     ("ws-both", "<mtext>&#x2009;</mtext><mspace width='0.2em'/>{N}<mtext>&#x2009;</mtext><mo>&#xA0;</mo>"),
+    # text that ends in a full stop in front of the number (approx. 1,234): it is not part of the number and does not stop it from folding
+    ("abbrev-before", "<mtext>approx.</mtext>{N}"),
+    ("abbrev-before-2", "<mtext>No.</mtext>{N}<mo>+</mo><mn>1</mn>"),
+    ("text-before", "<mtext>if</mtext>{N}"),
+    ("text-before-2", "<mi>x</mi><mo>=</mo><mtext>about</mtext>{N}<mtext>units</mtext>"),
 ]
 
 ADVERSARIAL = [
